@@ -99,6 +99,8 @@ TARGETED = [
     'c1ccc2cc3ccccc3cc2c1', 'c1cc2cccc3ccc4cccc1c4c32',
     'Cc1ccccc1C(C)(C)C', 'CC(C)(C)c1ccccc1', 'Cc1cccc(C)c1C',
     'OC1CCCO1', 'CC1CO1', 'CC1(C)CO1', 'C1CC1C', 'CC1=CC1',
+    '[C]=C', 'CC=[C]', '[C]=O', '[C]C', '[C]CC', '[C]O', 'C[C]C', '[C]#C',
+    'C1CCCCCC1', 'C1CC2CC2C1', 'C1CCOCC1', 'C1CC2CCC12',
 ]
 
 
@@ -113,7 +115,8 @@ def surface_chains(metal='Pt'):
     starts = {1: '%sC' % M, 2: '%sC(%s)' % (M, M), 3: '%sC(%s)(%s)' % (M, M,
                                                                      M)}
     inner = ['', 'C', 'C(=O)', 'C(=C)', 'C(=O)C(=O)', 'CC', 'C(=O)C',
-             'C(=C)C(=O)']
+             'C(=C)C(=O)', 'O', 'OO', 'CO', 'OC', 'OC(=O)', 'C(=O)O', 'COC',
+             'OC(=C)']
     for a in (1, 2, 3):
         for mid in inner:
             for b in (1, 2, 3):
